@@ -43,7 +43,7 @@ ASSUMPTIONS = [
     "value-level model: no aliasing between arguments of different calls (the same Table object is not passed twice); "
     "un-aliased sub-queries are referenced only by the call that adds them",
     "tables without schema; sub-queries with equal alias have equal hash (same FROM)",
-    "not modelled (oracle only): on_field joins, PostgreSQL on_conflict/returning, MSSQL top, set operations, delete, "
+    "not modelled (oracle only): on_field joins, PostgreSQL on_conflict/returning, slice/__getitem__, set operations, delete, "
     "replace_table, MySQL on_duplicate_key_*",
 ]
 ALLOWED_AXIOMS = []
@@ -57,11 +57,12 @@ KIND = {"from": "from", "into": "into", "update": "update", "select": "select", 
         "limit": "limit", "offset": "offset", "distinct": "distinct", "for_update": "for_update", "with": "with",
         "force_index": "force_index", "use_index": "use_index", "set": "set", "columns": "columns",
         "insert": "insert", "insert_or_replace": "insert", "hint": "hint", "modifier": "modifier", "final": "final",
-        "sample": "sample", "limit_by": "limit_by", "distinct_on": "distinct_on"}
+        "sample": "sample", "limit_by": "limit_by", "distinct_on": "distinct_on", "top": "top", "fetch_next": "limit"}
 # dialect-specific clause calls and the classes that have them
 ONLY_ON = {"hint": ("VerticaQuery",), "modifier": ("MySQLQuery",), "final": ("ClickHouseQuery",),
            "sample": ("ClickHouseQuery",), "limit_by": ("ClickHouseQuery",),
-           "distinct_on": ("ClickHouseQuery", "PostgreSQLQuery"), "insert_or_replace": ("SQLLiteQuery",)}
+           "distinct_on": ("ClickHouseQuery", "PostgreSQLQuery"), "insert_or_replace": ("SQLLiteQuery",),
+           "top": ("MSSQLQuery",), "fetch_next": ("MSSQLQuery", "OracleQuery")}
 TARGET_KINDS = ("from", "into", "update")
 
 
@@ -257,6 +258,13 @@ def apply_call(q, call, pos, reg, cls_name):
         if call[1]:
             return q.replace(*rows)
         return q.insert(*rows)
+    if k == "top":
+        return q.top(call[1][1], percent=call[2], with_ties=call[3])
+    if k == "fetch_next":
+        import warnings
+        with warnings.catch_warnings():
+            warnings.simplefilter("ignore")
+            return q.fetch_next(call[1])
     if k == "insert_or_replace":
         return q.insert_or_replace(*[tuple(r) for r in call[1]])
     if k == "hint":
@@ -404,6 +412,9 @@ def dump_state(q, reg):
                        "%s,%s,%s" % (v["_limit_by"][0], v["_limit_by"][1], d_list(T(t) for t in v["_limit_by"][2]))),
         "distinct_on=" + d_list(T(t) for t in v.get("_distinct_on", [])),
         "insert_or_replace=%s" % v.get("_insert_or_replace", False),
+        "top=%s" % (v.get("_top"),),
+        "top_percent=%s" % v.get("_top_percent", False),
+        "top_with_ties=%s" % v.get("_top_with_ties", False),
     ]
     return " ; ".join(lines)
 
@@ -903,6 +914,12 @@ def call_coq(call, pos, cls_name):
             else:
                 out.append("(ColTerm _ %s)" % arg_coq(mk_term(it[1], reg), "%s.%d" % (key, n), reg))
         return L(out)
+    if k == "top":
+        v = call[1]
+        arg = "(TopInt %s)" % Zc(v[1]) if v[0] == "i" else ("(TopStr %s)" % S(v[1]) if v[0] == "s" else "TopFraction")
+        return "(CTop _ %s %s %s)" % (arg, B(call[2]), B(call[3]))
+    if k == "fetch_next":
+        return "(CLimit _ %s)" % Zc(call[1])
     if k == "insert_or_replace":
         return "(CInsertOrReplace _ %s)" % L([L([const_coq(v) for v in r]) for r in call[1]])
     if k == "hint":
@@ -1075,6 +1092,13 @@ class G:
         if k == "columns":
             return ["columns", [(["s", self.col()] if r.random() < 0.7 else ["t", ["field", [self.col(), None], None]])
                                 for _ in range(r.choice([1, 2, 3]))]]
+        if k == "top":
+            v = r.choice([["i", 5], ["i", 10], ["i", 0], ["i", 100], ["s", "5"], ["i", 150]])
+            if malformed or r.random() < 0.08:
+                v = r.choice([["s", "abc"], ["f", 5.7], ["s", "5.7"], ["i", -1]])
+            return ["top", v, r.random() < 0.3, r.random() < 0.3]
+        if k == "fetch_next":
+            return ["fetch_next", r.choice([1, 10, 25])]
         if k == "hint":
             return ["hint", r.choice(["h", "lbl"])]
         if k == "modifier":
@@ -1148,7 +1172,7 @@ def gen_case(rng, max_calls=6):
     calls = []
     own = [k for k, classes in ONLY_ON.items() if cls in classes
            and (k != "insert_or_replace" or stmt == "insert")
-           and (k not in ("final", "sample", "limit_by", "distinct_on", "modifier") or stmt == "select")]
+           and (k not in ("final", "sample", "limit_by", "distinct_on", "modifier", "top", "fetch_next") or stmt == "select")]
     for _ in range(n):
         if own and rng.random() < 0.3:
             calls.append(g.call(rng.choice(own), malformed))
@@ -1266,7 +1290,7 @@ def gen_dialect_family(rng, n):
     out = []
     a, b = ["T", "a", None], ["T", "b", None]
     for _ in range(n):
-        k = rng.choice(list(ONLY_ON) + ["hint", "hint"])
+        k = rng.choice(list(ONLY_ON) + ["hint", "hint", "top", "top"])
         cls = rng.choice(ONLY_ON[k])
         g = G(rng)
         shapes = ["select", "with_select", "select_join", "empty"]
@@ -1310,6 +1334,11 @@ def gen_dialect_family(rng, n):
         calls.append(g.call(k))
         if rng.random() < 0.3:
             calls.append(g.call(k))
+        if k in ("top", "fetch_next"):
+            # TOP / FETCH NEXT next to every spelling of the pagination calls
+            for extra in rng.sample(["limit", "offset", "fetch_next", "top", "orderby"], rng.choice([1, 2, 3])):
+                if extra in ("limit", "offset", "orderby") or cls in ONLY_ON[extra]:
+                    calls.append(g.call(extra))
         rng.shuffle(calls)
         out.append({"cls": cls, "prefix": pre, "calls": calls, "stmt": shape, "malformed": False, "family": "dialect"})
     return out
@@ -1375,6 +1404,16 @@ def corpus():
         {"cls": "ClickHouseQuery", "prefix": [["from", a]],
          "calls": [["final"], ["sample", 10, 5], ["limit_by", 1, None, [["s", "x"]]], ["distinct_on", [["s", "y"]]], sel,
                    ["limit", 5], ["offset", 2], ["where", ["cmp", "eq", ["x", a], 1]]]},
+        # a foreign-table reference in where() and a purely local prewhere(): the flag is only ever raised
+        {"cls": "ClickHouseQuery", "prefix": [["from", a]],
+         "calls": [["where", ["cmp", "eq", ["x", a], ["id", ["T", "d", None]]]], ["prewhere", ["cmp", "eq", ["y", a], 1]], sel,
+                   ["limit", 1]]},
+        # MSSQL TOP next to limit / offset / fetch_next: every interleaving builds the same statement
+        {"cls": "MSSQLQuery", "prefix": [["from", a]],
+         "calls": [["top", ["i", 5], False, True], ["limit", 10], ["offset", 3], sel, ["orderby", [["s", "x"]], None]]},
+        {"cls": "MSSQLQuery", "prefix": [["from", a]],
+         "calls": [["fetch_next", 7], ["top", ["s", "50"], True, False], sel, ["distinct"]]},
+        {"cls": "MSSQLQuery", "prefix": [["from", a]], "calls": [["top", ["f", 5.7], False, False], sel, ["limit", 1]]},
         {"cls": "MySQLQuery", "prefix": [["from", a]],
          "calls": [["modifier", "SQL_CALC_FOUND_ROWS"], ["distinct"], sel, ["modifier", "HIGH_PRIORITY"]]},
         {"cls": "SQLLiteQuery", "prefix": [["into", a]],
